@@ -55,6 +55,36 @@ Theorem C17_collapseCloseVertices_is_a_sequence_of_validated_shortcuts :
   exists ijs, fst (collapse_close St mv dist steq p maxSteps maxEmpty d) = shortcuts St mv p ijs d /\
     (snd (collapse_close St mv dist steq p maxSteps maxEmpty d) = false -> fst (collapse_close St mv dist steq p maxSteps maxEmpty d) = p).
 Proof. exact collapse_close_is_shortcuts. Qed.
+
+(* the composition, stated for the two simplifier passes themselves: whatever the path, validator, limits and variates,
+   reduceVertices / collapseCloseVertices return a path with the same first and last state, every motion of which is
+   validated if every motion of the input was; and in a metric space reduceVertices' result is never longer *)
+Theorem C17_reduceVertices_keeps_ends_validated_never_longer :
+  forall (St : Type) (mv : St -> St -> bool) (range_of : Z -> Z), (forall c, 0 <= range_of c) ->
+  forall p maxSteps maxEmpty tape d, Forall uok tape ->
+  let q := fst (reduce_vertices St mv range_of p maxSteps maxEmpty tape d) in
+  hd d q = hd d p /\ last q d = last p d /\
+  (consecutive (fun a b => mv a b = true) p -> consecutive (fun a b => mv a b = true) q) /\
+  (forall dist : St -> St -> R, (forall x, dist x x = 0%R) -> (forall x y z, (dist x z <= dist x y + dist y z)%R) ->
+     (plen St dist q <= plen St dist p)%R).
+Proof.
+  intros St mv range_of Hr p maxSteps maxEmpty tape d Ht q.
+  destruct (C17_reduceVertices_is_a_sequence_of_validated_shortcuts St mv range_of Hr p maxSteps maxEmpty tape d Ht) as (ijs & E & _).
+  subst q. rewrite E.
+  destruct (C17_shortcuts_keep_ends_and_validated St mv ijs p d) as (A & B & C).
+  split; [exact A|]. split; [exact B|]. split; [exact C|].
+  intros dist D0 Dt. exact (C17_shortcuts_never_longer St mv dist D0 Dt ijs p d).
+Qed.
+Theorem C17_collapseCloseVertices_keeps_ends_validated :
+  forall (St : Type) (mv : St -> St -> bool) (dist : St -> St -> Z) (steq : St -> St -> bool) p maxSteps maxEmpty d,
+  let q := fst (collapse_close St mv dist steq p maxSteps maxEmpty d) in
+  hd d q = hd d p /\ last q d = last p d /\
+  (consecutive (fun a b => mv a b = true) p -> consecutive (fun a b => mv a b = true) q).
+Proof.
+  intros St mv dist steq p maxSteps maxEmpty d q.
+  destruct (C17_collapseCloseVertices_is_a_sequence_of_validated_shortcuts St mv dist steq p maxSteps maxEmpty d) as (ijs & E & _).
+  subst q. rewrite E. exact (C17_shortcuts_keep_ends_and_validated St mv ijs p d).
+Qed.
 Theorem C17_collapse_tries_a_closest_open_pair :
   forall (St : Type) (dist : St -> St -> Z) (steq : St -> St -> bool) p blocked d,
   match cc_best St dist steq p blocked d with
@@ -65,6 +95,8 @@ Theorem C17_collapse_tries_a_closest_open_pair :
 Proof. exact cc_best_spec. Qed.
 
 Print Assumptions C17_collapseCloseVertices_is_a_sequence_of_validated_shortcuts.
+Print Assumptions C17_reduceVertices_keeps_ends_validated_never_longer.
+Print Assumptions C17_collapseCloseVertices_keeps_ends_validated.
 Print Assumptions C17_collapse_tries_a_closest_open_pair.
 Print Assumptions C17_reduceVertices_is_a_sequence_of_validated_shortcuts.
 Print Assumptions C17_interpolate_exact_count.
